@@ -60,6 +60,7 @@ impl<V: PartialEq, M: Ord> CmRDT for LWWReg<V, M> {
     open spec fn cm_inv(&self) -> bool { lww_ok::<V, M>() }
     open spec fn cm_pre(&self, op: &Self) -> bool { true }
     open spec fn cm_post(old_: &Self, op: &Self, new_: &Self) -> bool { true }
+    open spec fn cm_vpre(&self, op: &Self) -> bool { true }
 
 //@extract fn src/lwwreg.rs "CmRDT for LWWReg" validate_op
     fn validate_op(&self, op: &Self::Op) -> /*@ (r: @*/ Result<(), Self::Validation> /*@ ) @*/
